@@ -230,7 +230,8 @@ class Array:
                 self.data[start * self._dtype.bitlength: stop * self._dtype.bitlength] = new_data
                 return
             items_in_slice = len(range(start, stop, step))
-            if not isinstance(value, Sized):
+            if not isinstance(value, Sized) or value is self:
+                # (assigning the Array to a slice of itself: read all the values before any of them is overwritten)
                 value = list(value)
             if len(value) == items_in_slice:
                 for s, v in zip(range(start, stop, step), value):
